@@ -10,7 +10,7 @@ from . import bk_encoding  # pylint: disable=unused-import
 
 from .compiler import Compiler
 from .devices import open_device
-from .formats import file_formats
+from .formats import file_formats, ImageTooLarge
 from . import parser
 from . import reports
 from .version import __version__ as version
@@ -127,12 +127,18 @@ def main_cli():
                 "path": output_file
             }
 
+            try:
+                output_data = file_formats[output_format](base, code)
+            except ImageTooLarge as ex:
+                print(f"Could not produce '{output_file}':\n{ex}", file=sys.stderr)
+                sys.exit(1)
+
             if output_file in ("-", "-." + output_ext):
-                sys.stdout.buffer.write(file_formats[output_format](base, code))
+                sys.stdout.buffer.write(output_data)
             else:
                 try:
                     with open_device(output_file, "wb") as f:
-                        f.write(file_formats[output_format](base, code))
+                        f.write(output_data)
                 except IOError as ex:
                     print(f"Could not write to '{output_file}':\n{ex}", file=sys.stderr)
                     sys.exit(1)
